@@ -261,6 +261,11 @@ def real_is_huge(r):
     return mag > 300 or mag < -300
 
 
+def materialised_empty(B):
+    """Value of an all-optional record after the library has instantiated it: DEFAULTs present."""
+    return dict((f[0], f[3]) for f in B[1] if f[2] == 'def')
+
+
 def canon(T, v):
     """Canonical, hashable, order-normalised form of value v of type T (SET OF as sorted multiset,
     reals normalised).  Two values are 'the same abstract content' iff their canon() are equal."""
@@ -757,7 +762,12 @@ def type_features(T, v=None, feats=None, depth=0, under=()):
                 elif b[0] == 'real' and (real_is_huge(dv) or
                                          (isinstance(v, dict) and real_is_huge(v.get(name)))):
                     feats.add('default-real-huge')
-            if isinstance(v, dict) and name not in v or v is ABSENT:
+            if isinstance(v, dict) and name not in v and 'absent-optional-emptyable-record' in feats \
+                    and pres == 'opt' and base_of(ft)[0] in ('seq', 'set') and base_of(ft)[1] \
+                    and all(f[2] != 'req' for f in base_of(ft)[1]):
+                # the library materialises such a component on any read: its subtree is live
+                type_features(ft, materialised_empty(base_of(ft)), feats, depth + 1, under + (k,))
+            elif isinstance(v, dict) and name not in v or v is ABSENT:
                 type_features(ft, ABSENT, feats, depth + 1, under + (k,))
             else:
                 type_features(ft, sub, feats, depth + 1, under + (k,))
